@@ -19,7 +19,7 @@ Oracle = s = str(f): formula(s) must succeed (public table) and return the same 
          a named formula prints its name; the formula g read back must itself round-trip (free when
          str(g) == s, else one more parse).
 States are de-duplicated by the whole printer input (structure, types, name), so merging is exact."""
-import os, re
+import os, re, copy
 from decimal import Decimal, ROUND_HALF_EVEN, localcontext
 from ..common import Acc, MachineryError, load_pt, rotate
 from ..ref import formula as R
@@ -108,6 +108,7 @@ class Env(object):
         self.memo = {}            # state key -> list of findings
         self.keys = {}            # hash of state key -> nontrivial?
         self._atoms = {}
+        self.parsed = {}
 
     def atom(self, key):
         key = tuple(key)
@@ -323,8 +324,9 @@ def diagnose(E, f, what):
     return sorted(causes)
 
 
-def judge(E, f, second=False):
-    """The property on one formula: list of (signature, expected, observed); [] = holds."""
+def judge(E, f, second=False, want_name=None):
+    """The property on one formula: list of (signature, expected, observed); [] = holds.
+    want_name: the name the producer was asked to give (else a formula is named iff .name is set)."""
     try:
         s = str(f)
         r = repr(f)
@@ -332,16 +334,14 @@ def judge(E, f, second=False):
         return [("printing-raises:" + type(e).__name__, "a string", "%s: %s" % (type(e).__name__, e))]
     if not isinstance(s, str):
         return [("str-is-not-a-string", "a string", repr(s))]
-    name = f.name
+    name = want_name or f.name
     bad = []
+    if r != "formula('%s')" % s:
+        bad.append(("repr-is-not-formula-of-str", "formula('%s')" % s, r))
     if name:
         if s != name:
             bad.append(("named-formula-does-not-print-its-name", name, s))
-        if r != "formula('%s')" % name:
-            bad.append(("repr-of-named-formula", "formula('%s')" % name, r))
         return bad
-    if r != "formula('%s')" % s:
-        bad.append(("repr-is-not-formula-of-str", "formula('%s')" % s, r))
     try:
         g = E.formula(s)
         gs = g.structure
@@ -432,17 +432,17 @@ def _trivial(E, f):
                                             and E.akey(st[0][1])[1:] == (0, 0)))
 
 
-def check(E, acc, f, case, twin=False):
+def check(E, acc, f, case, twin=False, want_name=None):
     """Judge one produced formula (memoised on the printer input).  Returns True when silent.
     twin: f is the named copy of a formula already judged (counted apart, not as a state)."""
-    key = state_key(E, f)
+    key = state_key(E, f) + (want_name,)
     found = E.memo.get(key)
     if twin:
         acc.count("named_copies_produced")
     else:
         acc.transitions += 1
     if found is None:
-        found = E.memo[key] = judge(E, f)
+        found = E.memo[key] = judge(E, f, want_name=want_name)
         if twin:
             acc.count("named_copies_judged")
         else:
@@ -452,7 +452,7 @@ def check(E, acc, f, case, twin=False):
             acc.outcome("VIOLATION:" + found[0][0].split(":")[0])
         elif twin:
             acc.outcome("named-copy:prints-name")
-        elif f.name:
+        elif f.name or want_name:
             acc.outcome("named:prints-name")
         else:
             st = f.structure
@@ -472,13 +472,13 @@ def check(E, acc, f, case, twin=False):
     for sig, exp, obs in found:
         acc.violation(sig, case, expected=exp, observed=obs, standalone=snippet(case))
     ok = not found
-    if ok and not twin and not f.name:
+    if ok and not twin and not f.name and not want_name:
         try:
             fn = E.formula(f, name=NAME)
         except Exception:
             acc.outcome("producer-raised:name")
             return ok
-        check(E, acc, fn, dict(case, named=NAME), twin=True)
+        check(E, acc, fn, dict(case, named=NAME), twin=True, want_name=NAME)
     return ok
 
 
@@ -491,7 +491,7 @@ def run_case(E, acc, case):
     except Exception as e:
         acc.outcome("producer-raised:%s" % case["kind"])
         return None
-    return check(E, acc, f, case)
+    return check(E, acc, f, case, want_name=case.get("name"))
 
 
 def finish(E, acc):
@@ -504,6 +504,8 @@ def finish(E, acc):
 # ------------------------------------------------------------------------------------ P: parsing
 MAG_MENU = dict(syms=("H", "D", "T", "O"), counts=MAG_TEXT, gcounts=MAG_TEXT, leads=("2", "0.00001", "1234567"),
                 dens=(), seps=((" ", 0), ("", 0)), max_isos=1, max_ions=2)
+MAG_TEXT3 = ("0.5", "0.00001", "1234567", "0.1234567", "999999.5", "1.0000001")
+MAG_MENU3 = dict(MAG_MENU, counts=MAG_TEXT3, gcounts=MAG_TEXT3, leads=("0.00001", "1234567"))
 
 
 def shard_sentences(args):
@@ -523,7 +525,7 @@ def shard_sentences(args):
 
     if args[0] == "struct":
         _, menu, nmax, budget, depth, part, nparts, only = args
-        kw = MAG_MENU if menu == "mags" else c01.MENUS[menu]
+        kw = MAG_MENU if menu == "mags" else MAG_MENU3 if menu == "mags3" else c01.MENUS[menu]
         gen = c01.Gen(cenv, **kw)
         for ast, nel, cost in gen.compounds(nmax, budget, depth, (part, nparts)):
             if only is not None and not ((only[0] is None or nel == only[0]) and only[1] <= cost <= only[2]):
@@ -628,6 +630,7 @@ BASES = {
                    lambda E: E.formula(((3, ((2, ((1, E.atom(("Co", 0, 0))),)),)),))),
 }
 BASE_ORDER = tuple(BASES)
+BASE_NAMES = {"str:named": "water"}      # bases whose producer asks for a name
 BASES_LAST = ("atom:D+", "dict:ions", "list:nested")       # thorough: operands of the third operator
 
 
@@ -660,18 +663,29 @@ class Ops(object):
     def __init__(self, E, mults=ALLMAGS, wraps=WRAPS, operands=BASE_ORDER):
         self.E, self.mults, self.wraps, self.operands = E, mults, wraps, operands
 
+    def fresh(self, label):
+        """A fresh base formula.  String bases are parsed once per process and handed out as shallow
+        copies afterwards (what the library's own n*f does): the structure is the parser's tuple."""
+        E = self.E
+        if not label.startswith("str:"):
+            return BASES[label][1](E)
+        f = E.parsed.get(label)
+        if f is None:
+            f = E.parsed[label] = BASES[label][1](E)
+        return copy.copy(f)
+
     def apply(self, L, ev):
         """Execute one event on the live list; returns the index of the formula it made / changed."""
         E = self.E
         k = ev[0]
         if k == "base":
-            L.append(BASES[ev[1]][1](E))
+            L.append(self.fresh(ev[1]))
         elif k == "addg":
-            g = BASES[ev[2]][1](E)
+            g = self.fresh(ev[2])
             L.append(g)
             L.append(L[ev[1]] + g)
         elif k == "iaddg":
-            g = BASES[ev[2]][1](E)
+            g = self.fresh(ev[2])
             L.append(g)
             f = L[ev[1]]
             f += g
@@ -747,7 +761,8 @@ def shard_ops(args):
             return
         target = full.target
         case = dict(kind="ops", history=[list(ev) for ev in hist], target=target)
-        if not check(E, acc, L[target], case) or len(hist) > depth:
+        want = BASE_NAMES.get(hist[0][1]) if len(hist) == 1 else None
+        if not check(E, acc, L[target], case, want_name=want) or len(hist) > depth:
             return
         menu = reduced if (last and len(hist) == depth) else full
         evs = menu.events(L, target, len(hist) == 1)
@@ -836,10 +851,9 @@ def plan(quick):
             P.append((shard_sentences, ("lex", tuple(firsts), n, gapset, deco)))
     P += [(shard_sentences, ("struct", "full", 2, 2, 2, p, 8, None)) for p in range(8)]
     P += [(shard_sentences, ("struct", "chain", 2, 5, 3, p, 6, (None, 3, 5))) for p in range(6)]
-    if quick:
-        P += [(shard_sentences, ("struct", "mags", 2, 2, 2, p, 16, None)) for p in range(16)]
-    else:
-        P += [(shard_sentences, ("struct", "mags", 2, 3, 2, p, 64, None)) for p in range(64)]
+    P += [(shard_sentences, ("struct", "mags", 2, 2, 2, p, 16, None)) for p in range(16)]
+    if not quick:
+        P += [(shard_sentences, ("struct", "mags3", 2, 3, 2, p, 32, (None, 3, 3))) for p in range(32)]
         P += [(shard_sentences, ("struct", "full3", 3, 2, 2, p, 48, (3, 0, 2))) for p in range(48)]
     # S
     counts = ((1, 2.5), (1,)) if quick else ((1, 2.5, 0.1234567),) * 2
